@@ -90,7 +90,7 @@ def thread_jobs(rng, thorough):
 
 
 def run(ctx: core.Ctx):
-    ctx.lean_stage()
+    ctx.lean_stage(extra_props=("C02x",))
     T = core.tables()
     rng = ctx.rng
     thorough = ctx.tier == "thorough"
